@@ -413,7 +413,27 @@ func C15(tier string) int {
 		tier = "quick"
 	}
 	o := runner.New("C15", tier, "exploration")
-	o.Assumptions = []string{
+	C15Into(tier, o, true)
+	return o.Finish()
+}
+
+// C15Into runs the enumerator and adds its assumptions, findings and coverage to o (coverage at the top
+// level if top, else under coverage.conversion).
+func C15Into(tier string, o *runner.Outcome, top bool) {
+	if tier != "thorough" {
+		tier = "quick"
+	}
+	cov := map[string]interface{}{}
+	defer func() {
+		if top {
+			for k, v := range cov {
+				o.Coverage[k] = v
+			}
+		} else {
+			o.Coverage["conversion"] = cov
+		}
+	}()
+	o.Assumptions = append(o.Assumptions, []string{
 		"'valid content hash' means ContentHash.Validate() returns nil (the check MsgAnchor/MsgAttest/MsgRegisterResolver apply); nothing narrower is assumed, in particular the numeric fields are taken over their full uint32 type",
 		"bounded: each numeric field is enumerated over every value 0..65535 plus 2^16, 2^24, 2^31, 2^32-1 with the other numeric fields at 1 and 255 (merkle_tree also 0); hash lengths 19..65 with four contents; raw extensions = all strings over {a,z,0,9} up to the stated length plus probes; the thorough tier extends the sweeps as stated under 'thorough_sweeps'",
 		"round-trip equality is judged field by field on the Go structs (branch set, hash bytes, numeric fields, extension)",
@@ -421,7 +441,7 @@ func C15(tier string) int {
 		"parser side: an input counts as accepted iff ParseIRI returns nil error; re-encoding is demanded only if the parsed hash also passes Validate() (otherwise ToIRI refuses it and nothing can be anchored under it); accepted-but-invalid inputs are counted and sampled",
 		"the gRPC wrappers ConvertHashToIRI / ConvertIRIToHash are not exercised (they call ToIRI / ParseIRI and add only nil/empty checks)",
 		"synthetic parser inputs are built with a base58check encoder written in the harness; it is an input builder, not an oracle",
-	}
+	}...)
 	t := newC15Tables()
 	col := newC15Collector()
 	fams := c15Families(tier, t)
@@ -555,20 +575,20 @@ func C15(tier string) int {
 	// oracle 3: parser side
 	ps := c15ParserSide(t, col, &order, nw)
 
-	o.Coverage["evaluations"] = hashEvals + ps.Inputs
-	o.Coverage["distinct_nontrivial"] = validDistinct + ps.AcceptedDistinct
-	o.Coverage["rule"] = "content hashes: every member of the stated finite families is built, validated, converted to an IRI and parsed back; a hash is distinct by (branch, hash bytes, numeric fields, extension) and non-trivial iff Validate() accepts it; parser inputs: every single-character replacement/deletion/insertion over the stated alphabet on each base IRI, plus every synthetic 'regen:'+base58check(version,payload)[.ext] over the stated payload lengths, type bytes, versions, contents and extensions; a parser input is distinct by its string and non-trivial iff ParseIRI accepts it; distinct_nontrivial = distinct valid hashes round-tripped + distinct accepted parser inputs"
-	o.Coverage["samples"] = append(samples, ps.Samples...)
-	o.Coverage["exhaustive"] = true
-	o.Coverage["hashes_enumerated"] = hashEvals
-	o.Coverage["hashes_valid_distinct"] = validDistinct
-	o.Coverage["hashes_rejected_by_Validate"] = invalid
-	o.Coverage["families"] = famCounts
-	o.Coverage["thorough_sweeps"] = sweeps
-	o.Coverage["parser_side"] = ps
-	o.Coverage["grpc_queries_exercised"] = false
-	o.Coverage["violation_counts_by_kind"] = col.counts
-	o.Coverage["workers"] = nw
+	cov["evaluations"] = hashEvals + ps.Inputs
+	cov["distinct_nontrivial"] = validDistinct + ps.AcceptedDistinct
+	cov["rule"] = "content hashes: every member of the stated finite families is built, validated, converted to an IRI and parsed back; a hash is distinct by (branch, hash bytes, numeric fields, extension) and non-trivial iff Validate() accepts it; parser inputs: every single-character replacement/deletion/insertion over the stated alphabet on each base IRI, plus every synthetic 'regen:'+base58check(version,payload)[.ext] over the stated payload lengths, type bytes, versions, contents and extensions; a parser input is distinct by its string and non-trivial iff ParseIRI accepts it; distinct_nontrivial = distinct valid hashes round-tripped + distinct accepted parser inputs"
+	cov["samples"] = append(samples, ps.Samples...)
+	cov["exhaustive"] = true
+	cov["hashes_enumerated"] = hashEvals
+	cov["hashes_valid_distinct"] = validDistinct
+	cov["hashes_rejected_by_Validate"] = invalid
+	cov["families"] = famCounts
+	cov["thorough_sweeps"] = sweeps
+	cov["parser_side"] = ps
+	cov["grpc_queries_exercised"] = false
+	cov["violation_counts_by_kind"] = col.counts
+	cov["workers"] = nw
 
 	kinds := make([]string, 0, len(col.best))
 	for k := range col.best {
@@ -582,7 +602,7 @@ func C15(tier string) int {
 		bz, _ := json.Marshal(f.replay)
 		o.Findings = append(o.Findings, runner.Finding{Kind: k, Detail: fmt.Sprintf("%s (%d occurrences of this kind)", f.detail, col.counts[k]), Engine: "B", Where: f.where, Replay: bz})
 	}
-	return o.Finish()
+
 }
 
 // c15Sweep evaluates mk(v) for v in [from, limit] in parallel blocks and
